@@ -4,6 +4,7 @@ import (
 	"fmt"
 	"go/ast"
 	"go/token"
+	"go/types"
 	"golang.org/x/tools/go/packages"
 	"os"
 	"runtime"
@@ -46,6 +47,8 @@ func Explore(m *model.Model, repo, filter, kind, pkgFilter string) {
 		muts = genDeletes(m, filter)
 	case "negate":
 		muts = genNegates(m, filter)
+	case "wrongvar":
+		muts = genWrongVars(m, filter)
 	default:
 		muts = genSwaps(m, filter)
 	}
@@ -347,6 +350,110 @@ func genNegates(m *model.Model, filter string) []mutant {
 						Edits:  []edit{{off(ifs.Cond.Pos()), off(ifs.Cond.End()), "!(" + txt + ")"}},
 						Expect: expect,
 						Desc:   fmt.Sprintf("%s %s  negate [%s]", name, m.Prog.Rel(ifs.Cond.Pos()), oneLine(txt))})
+					return true
+				})
+			}
+		}
+	}
+	return out
+}
+
+// genWrongVars: the receiver of a method call, or an identifier argument, is replaced by another variable of the
+// identical type that is visible at that point (the "wrong variable" slip).
+func genWrongVars(m *model.Model, filter string) []mutant {
+	var out []mutant
+	for _, p := range explorePkgs(m) {
+		info := p.TypesInfo
+		for _, f := range p.Syntax {
+			fname := m.Prog.Fset.Position(f.Pos()).Filename
+			if strings.HasSuffix(fname, "_test.go") || strings.Contains(fname, "zz_verif") {
+				continue
+			}
+			for _, d := range f.Decls {
+				fd, ok := d.(*ast.FuncDecl)
+				if !ok || fd.Body == nil {
+					continue
+				}
+				name := fd.Name.Name
+				expect := model.ShortPkg(p.PkgPath) + "." + name
+				group := ""
+				if fd.Recv != nil && len(fd.Recv.List) == 1 {
+					tn := load.RecvTypeName(fd.Recv.List[0].Type)
+					name = tn + "." + name
+					expect = model.ShortPkg(p.PkgPath) + "." + tn
+					group = tn
+				}
+				if filter != "" && !strings.Contains(name, filter) {
+					continue
+				}
+				if fd.Recv == nil && !fd.Name.IsExported() {
+					expect = ""
+				}
+				off := func(pos token.Pos) int { return m.Prog.Fset.Position(pos).Offset }
+				seen := map[token.Pos]bool{}
+				try := func(id *ast.Ident) {
+					if seen[id.Pos()] {
+						return
+					}
+					seen[id.Pos()] = true
+					v, ok := info.Uses[id].(*types.Var)
+					if !ok || v.IsField() {
+						return
+					}
+					switch v.Type().Underlying().(type) {
+					case *types.Basic:
+						return // counters and flags: value level
+					}
+					inner := p.Types.Scope().Innermost(id.Pos())
+					n := 0
+					for sc := inner; sc != nil && sc != types.Universe && n < 2; sc = sc.Parent() {
+						for _, nm := range sc.Names() {
+							o, ok := sc.Lookup(nm).(*types.Var)
+							if !ok || o == v || o.Name() == "_" || o.Pos() > id.Pos() && sc != p.Types.Scope() {
+								continue
+							}
+							if sc == p.Types.Scope() {
+								continue // package-level variables are hooks, not state
+							}
+							if !types.Identical(o.Type(), v.Type()) {
+								continue
+							}
+							// must resolve to o at this position
+							if _, found := inner.LookupParent(o.Name(), id.Pos()); found != types.Object(o) {
+								continue
+							}
+							n++
+							pos := m.Prog.Fset.Position(id.Pos())
+							out = append(out, mutant{ID: fmt.Sprintf("wrongvar:%s:%d:%d:%s", name, pos.Line, pos.Column, o.Name()), Op: "wrongvar", Group: groupOr(group, name), File: fname,
+								Edits:  []edit{{off(id.Pos()), off(id.End()), o.Name()}},
+								Expect: expect,
+								Desc:   fmt.Sprintf("%s %s:%d  %s -> %s", name, m.Prog.Rel(id.Pos()), pos.Column, id.Name, o.Name())})
+							if n >= 2 {
+								break
+							}
+						}
+					}
+				}
+				ast.Inspect(fd.Body, func(x ast.Node) bool {
+					call, ok := x.(*ast.CallExpr)
+					if !ok {
+						return true
+					}
+					if sel, ok := ast.Unparen(call.Fun).(*ast.SelectorExpr); ok {
+						if id, ok := ast.Unparen(sel.X).(*ast.Ident); ok {
+							try(id)
+						}
+					}
+					for _, a := range call.Args {
+						if id, ok := ast.Unparen(a).(*ast.Ident); ok {
+							try(id)
+						}
+						if u, ok := ast.Unparen(a).(*ast.UnaryExpr); ok && u.Op == token.AND {
+							if id, ok := ast.Unparen(u.X).(*ast.Ident); ok {
+								try(id)
+							}
+						}
+					}
 					return true
 				})
 			}
